@@ -384,6 +384,14 @@ class Inliner(object):
                 continue
             g, bound = t
             if g.is_generator:
+                # `return subgenerator(...)` as the last statement of a plain function: the function becomes the
+                # generator itself (the only difference is when the arguments are evaluated)
+                if isinstance(s, ast.Return) and s.value is call and s is self._tail and \
+                        not any(isinstance(x, (ast.Yield, ast.YieldFrom)) for x in _own_walk(self._root)):
+                    mapping = self.bind(g, bound, call)
+                    pre, body = self.body_of(g, mapping, caller_names)
+                    self.inlined_fns.add(g.fq)
+                    return pre + body
                 continue
             mapping = self.bind(g, bound, call)
             pre, body = self.body_of(g, mapping, caller_names)
@@ -559,6 +567,17 @@ class Inliner(object):
             raise _NoInline('sub-generator with return, not in tail position')
         self.inlined_fns.add(g.fq)
         return pre + body
+
+
+def _own_walk(fnode):
+    stack = list(reversed(fnode.body))
+    while stack:
+        n = stack.pop()
+        yield n
+        for c in ast.iter_child_nodes(n):
+            if isinstance(c, (ast.FunctionDef, ast.AsyncFunctionDef, ast.Lambda, ast.ClassDef)):
+                continue
+            stack.append(c)
 
 
 def build_known(project):
